@@ -351,3 +351,43 @@ Section Generic.
                      | Some lls => predict_row m.(k_classes) m.(k_priors) (fun k => nth k lls O.(o0))
                      end) q).
 End Generic.
+
+(* ---------- the *NBParameters structs and their builder methods ----------
+   One record stands for the four parameter structs: GaussianNBParameters has only `priors`,
+   MultinomialNBParameters `alpha` and `priors`, BernoulliNBParameters all three,
+   CategoricalNBParameters only `alpha` (a field a struct does not have is never set and never read).
+   `pub fn with_f(mut self, v) -> Self { self.f = v; self }` (with `Some(v)` for the optional
+   fields): one field is replaced, the others are kept.  `*_default` is `Default::default()`:
+   alpha = 1, priors = None, and for the Bernoulli variant binarize = Some(0). *)
+Section Builder.
+  Context {T : Type} (O : Ops T).
+
+  Record nbparams := mkParams { np_alpha : T; np_priors : option (list T); np_binarize : option T }.
+  Inductive bstep := WithAlpha (a : T) | WithPriors (p : list T) | WithBinarize (t : T).
+
+  Definition with_alpha (p : nbparams) (a : T) : nbparams := mkParams a p.(np_priors) p.(np_binarize).
+  Definition with_priors (p : nbparams) (pr : list T) : nbparams := mkParams p.(np_alpha) (Some pr) p.(np_binarize).
+  Definition with_binarize (p : nbparams) (t : T) : nbparams := mkParams p.(np_alpha) p.(np_priors) (Some t).
+
+  Definition apply_step (p : nbparams) (s : bstep) : nbparams :=
+    match s with
+    | WithAlpha a => with_alpha p a
+    | WithPriors pr => with_priors p pr
+    | WithBinarize t => with_binarize p t
+    end.
+  (* Default::default().with_..(..).with_..(..) ... *)
+  Definition build_params (d : nbparams) (steps : list bstep) : nbparams := fold_left apply_step steps d.
+
+  Definition plain_default : nbparams := mkParams O.(o1) None None.            (* Gaussian, multinomial, categorical *)
+  Definition bernoulli_default : nbparams := mkParams O.(o1) None (Some O.(o0)).
+
+  (* XxxNB::fit(x, y, parameters) *)
+  Definition gaussian_fit_with (p : nbparams) (x : list (list T)) (y : list Z) :=
+    gaussian_fit O x y p.(np_priors).
+  Definition multinomial_fit_with (to_usize : T -> option nat) (p : nbparams) (x : list (list T)) (y : list Z) :=
+    multinomial_fit O to_usize x y p.(np_alpha) p.(np_priors).
+  Definition bernoulli_fit_with (to_usize : T -> option nat) (p : nbparams) (x : list (list T)) (y : list Z) :=
+    bernoulli_fit O to_usize x y p.(np_alpha) p.(np_priors) p.(np_binarize).
+  Definition categorical_fit_with (to_cat : T -> option nat) (p : nbparams) (x : list (list T)) (y : list Z) :=
+    categorical_fit O to_cat x y p.(np_alpha).
+End Builder.
